@@ -286,13 +286,13 @@ func TestCheck(t *testing.T) {
 		}
 		return
 	}
-	n := r.Pick(40000, 1000000)
+	n := r.Pick(40000, 5000000)
 	for i := 0; i < n; i++ {
 		if r.Mine(i) {
 			caseGen(r, i)
 		}
 	}
-	m := r.Pick(3000, 60000)
+	m := r.Pick(3000, 300000)
 	for i := 0; i < m; i++ {
 		if r.Mine(i) {
 			casePerm(r, i)
